@@ -2,11 +2,12 @@
    Only statements; every proof is `exact <lemma>`.  serde, serde_derive,
    serde_json and fpdec's string conversion are MODELLED (Rt/Serde.v); the
    theorems are generic in the amount type's codec and take its round trip as a
-   hypothesis (trivial for f64 in the value tree; for the decimal string form it
-   is validated by differential testing, not proved). *)
-From Coq Require Import String.
+   hypothesis, which is discharged for both amount types: trivially for f64 in
+   the value tree, and for the decimal string form by the parse-after-print
+   theorem of Amount/DecStr.v about the model of fpdec's two conversions. *)
+From Coq Require Import String ZArith.
 From QV Require Import Rt.Prelude Rt.Amount Rt.Quantity Rt.Serde Macro.Defs Gen.Prefixes Gen.Catalogue Gen.Config
-  Gen.Kernels Macro.Inst Amount.F64 Proofs.Laws Proofs.Instances Proofs.C09 Proofs.C17.
+  Gen.Kernels Macro.Inst Amount.F64 Amount.DecModel Amount.Dec Amount.DecCodec Proofs.Laws Proofs.Instances Proofs.C09 Proofs.C17.
 Local Open Scope string_scope.
 
 Theorem C17_unit_roundtrip : forall (g : gen_def SIPrefix), nodupb (gd_VARIANTS g) = true ->
@@ -36,6 +37,10 @@ Proof. exact ser_injective. Qed.
 Theorem C17_f64_codec : forall x, dcd_f64 (enc_f64 x) = Some x.
 Proof. exact f64_codec_roundtrip. Qed.
 
+Theorem C17_decimal_codec : forall d : dec, (0 <= d_nfd d <= 18)%Z -> (Z.abs (d_coeff d) <= i128_max)%Z ->
+  dcd_dec (enc_dec d) = Some d.
+Proof. exact dec_codec_roundtrip. Qed.
+
 (** every generated type of the tree derives both traits on enum and struct,
     has the expected fields and distinct variants; the feature is wired *)
 Theorem C17_tree_facts : forallb serde_ok all_entries = true /\ serde_feature_wired = true.
@@ -46,4 +51,5 @@ Print Assumptions C17_quantity_roundtrip.
 Print Assumptions C17_single_unit_roundtrip.
 Print Assumptions C17_distinct_values_distinct_serialisations.
 Print Assumptions C17_f64_codec.
+Print Assumptions C17_decimal_codec.
 Print Assumptions C17_tree_facts.
